@@ -359,6 +359,39 @@ def c12_commute_const(i2: int, ci: int, swapped: bool, is_const: bool, commuted:
     return got == expected
 
 
+# ---------------------------------------------------------------- class 13: optional attribute patterns, attribute constants of several types
+P13 = RR.Pattern(lambda op, x: op.Relu(x, alpha=PI.AttrVar("alpha", can_match_none=True), _allow_other_attributes=False))
+P13b = RR.Pattern(lambda op, x: op.Relu(x, alpha=PI.AttrVar("alpha", can_match_none=True), gamma=PI.AttrVar("gamma", can_match_none=True),
+                                        _allow_other_attributes=False))
+P13c = RR.Pattern(lambda op, x: op.Relu(x, alpha=PI.AttrVar("alpha", can_match_none=True)))
+
+
+def c13_optional_attrs(i1: int, has_alpha: bool, has_gamma: bool, has_beta: bool, variant: int) -> bool:
+    """an optional attribute pattern may be absent from the node; with _allow_other_attributes=False every attribute of the node
+    must be mentioned by the pattern, whatever the attribute counts are
+    vp-pre: 0 <= i1 < 5 and 0 <= variant < 3
+    """
+    attrs = (([ir.AttrFloat32("alpha", 1.5)] if has_alpha else []) + ([ir.AttrFloat32("gamma", 2.0)] if has_gamma else [])
+             + ([ir.AttrInt64("beta", 7)] if has_beta else []))
+    m, g, n, v = mk([("", OPS[i1], ["a"], attrs, 1)], ["a"], ["v0"])
+    pat = [P13, P13b, P13c][variant]
+    r = pat.match(m, g, n[0])
+    if variant == 0:
+        unmentioned = has_gamma or has_beta
+    elif variant == 1:
+        unmentioned = has_beta
+    else:
+        unmentioned = False  # default: other attributes are allowed
+    expected = OPS[i1] == "Relu" and not unmentioned
+    if bool(r) != expected:
+        return False
+    if r:
+        b = r.bindings.get("alpha")
+        if has_alpha != (b is not None):
+            return False
+    return (not r) or r.bindings["x"] is v["a"]
+
+
 def _ob(name, timeout=200, bounds="", tt=None, slice_=None):
     if slice_ is not None:
         var, n = slice_
@@ -386,5 +419,6 @@ OBLIGATIONS = [
     _ob("c4_attrs", 300), _ob("c5_inputs"), _ob("c6_or", 300), _ob("c7_two_outputs"), _ob("c8_commute", 400),
     *_ob("c9_three", 300, tt=900, slice_=("i0", 5)), _ob("c10_or_shared_var", 300), _ob("c10b_or_plain_alt", 300),
     _ob("c12_commute_const", 300, "constant value: bounded symbolic index into 12 values around the tolerance of 1000.0; op-type index, operand order, commuted or plain pattern symbolic"),
+    _ob("c13_optional_attrs", 300, "host leaves symbolic: op-type index, presence of each of three attributes, pattern variant (strict with one / two optional attribute variables, default)"),
     _ob("c11_one_of_two_outputs", 300, "host leaves symbolic: op-type indices, which of the two outputs the pattern returns, whether the other output / the inner value is used outside or is a graph output"),
 ]
